@@ -76,13 +76,13 @@ def _record_field_names(ci) -> Optional[List[str]]:
     if a.vararg or a.kwarg or a.kwonlyargs or a.defaults:
         return None
     body = [st for st in init.node.body if not (isinstance(st, ast.Expr) and isinstance(st.value, ast.Constant))]
-    got = []
+    got: Dict[str, str] = {}
     for st in body:
-        if isinstance(st, ast.Assign) and len(st.targets) == 1 and isinstance(st.targets[0], ast.Attribute) and isinstance(st.targets[0].value, ast.Name) and st.targets[0].value.id == init.pos_params[0] and isinstance(st.value, ast.Name) and st.value.id == st.targets[0].attr:
-            got.append(st.value.id)
+        if isinstance(st, ast.Assign) and len(st.targets) == 1 and isinstance(st.targets[0], ast.Attribute) and isinstance(st.targets[0].value, ast.Name) and st.targets[0].value.id == init.pos_params[0] and isinstance(st.value, ast.Name) and st.value.id in ps and st.value.id not in got and st.targets[0].attr not in got.values():
+            got[st.value.id] = st.targets[0].attr  # self._x = x: the field that holds parameter x
         else:
             return None
-    return ps if got == ps else None
+    return [got[p_] for p_ in ps] if set(got) == set(ps) else None
 
 
 def _local_record_class(model: Model, fi: FuncInfo, name: str):
@@ -129,8 +129,8 @@ def _split_records(model: Model, fi: FuncInfo, body: List[ast.stmt]) -> Tuple[Li
     for x, (asg, fields) in list(cands.items()):
         ok = True
         call = asg.value
-        if any(isinstance(a, ast.Starred) for a in call.args) or any(k.arg is None or k.arg not in fields for k in call.keywords) or len(call.args) + len(call.keywords) != len(fields):
-            ok = False
+        if any(isinstance(a, ast.Starred) for a in call.args) or call.keywords or len(call.args) != len(fields):
+            ok = False  # (keyword arguments of package calls were made positional when the model was loaded)
         n_store = 0
         for st in body:
             for n in ast.walk(st):
@@ -349,10 +349,61 @@ def _inline_returned_helpers(model: Model, fi: FuncInfo, body: List[ast.stmt]) -
     all_names = {x.id for st in body for x in ast.walk(st) if isinstance(x, ast.Name)} | set(fi.pos_params)
     changed = False
 
+    def hoist(stmts: List[ast.stmt]) -> List[ast.stmt]:
+        """a call of an inlinable private helper that is the first thing a statement evaluates (everything evaluated
+        before it is a plain name, constant or attribute read) moves in front of the statement: t = h(..); <statement
+        with t>.  `x = h(..)`, `return h(..)` and `h(..)` themselves are the forms the inliner reads, and stay."""
+        out: List[ast.stmt] = []
+        for st in stmts:
+            cur = st
+            for _ in range(4):
+                if isinstance(cur, (ast.Return, ast.Expr, ast.Assign, ast.AugAssign)):
+                    holder, fld = cur, "value"
+                elif isinstance(cur, ast.If):
+                    holder, fld = cur, "test"
+                else:
+                    break
+                e = getattr(holder, fld)
+                if e is None:
+                    break
+                first = next(_eval_order(e), None)
+                if not isinstance(first, ast.Call) or first is e and not isinstance(cur, ast.If):
+                    break
+                got = _resolve_helper(model, fi, first)
+                if got is None or not got[0].is_private or got[0] is fi or got[0].name in _KEEP or isinstance(got[0].node, ast.Lambda):
+                    break
+                if not any(isinstance(r_, ast.Return) and r_.value is not None for r_ in ast.walk(got[0].node)):
+                    break
+                k = 0
+                tmp = "result_h"
+                while tmp in all_names:
+                    k += 1
+                    tmp = f"result_h{k}"
+                all_names.add(tmp)
+                a_ = _fresh(ast.copy_location(ast.Assign(targets=[ast.Name(id=tmp, ctx=ast.Store())], value=first, type_comment=None), st))
+                ast.fix_missing_locations(a_)
+
+                class _Rep(ast.NodeTransformer):
+                    def visit(self, n):
+                        if n is first:
+                            return ast.copy_location(ast.Name(id=tmp, ctx=ast.Load()), first)
+                        return self.generic_visit(n)
+
+                new = copy.copy(cur)
+                setattr(new, fld, _Rep().visit(e if e is not first else e))
+                if e is first:
+                    setattr(new, fld, ast.copy_location(ast.Name(id=tmp, ctx=ast.Load()), first))
+                _fresh(new)
+                out.append(a_)
+                cur = new
+            out.append(cur)
+        return out
+
     def block(stmts: List[ast.stmt]) -> List[ast.stmt]:
         nonlocal changed
         out: List[ast.stmt] = []
         skip_next = False
+        stmts = hoist(stmts)
         for i_, st in enumerate(stmts):
             if skip_next:
                 skip_next = False
@@ -409,6 +460,69 @@ def _inline_returned_helpers(model: Model, fi: FuncInfo, body: List[ast.stmt]) -
 
     new = block(body)
     return new, changed
+
+
+class _Opaque:
+    pass
+
+
+def _eval_order(e: ast.AST):
+    """the calls of an expression in the order python evaluates them (arguments before the call that takes them);
+    anything evaluated conditionally, lazily or in an order not modelled here yields an opaque marker instead"""
+    if isinstance(e, (ast.Name, ast.Constant)):
+        return
+    if isinstance(e, ast.Attribute):
+        yield from _eval_order(e.value)
+    elif isinstance(e, ast.Subscript):
+        yield from _eval_order(e.value)
+        yield from _eval_order(e.slice)
+    elif isinstance(e, ast.Call):
+        yield from _eval_order(e.func)
+        for a in e.args:
+            yield from _eval_order(a)
+        for k in e.keywords:
+            yield from _eval_order(k.value)
+        yield e
+    elif isinstance(e, (ast.Tuple, ast.List, ast.Set)):
+        for x in e.elts:
+            yield from _eval_order(x)
+    elif isinstance(e, ast.BinOp):
+        yield from _eval_order(e.left)
+        yield from _eval_order(e.right)
+    elif isinstance(e, ast.UnaryOp):
+        yield from _eval_order(e.operand)
+    elif isinstance(e, ast.Compare) and len(e.ops) == 1:
+        yield from _eval_order(e.left)
+        yield from _eval_order(e.comparators[0])
+    elif isinstance(e, ast.Starred):
+        yield from _eval_order(e.value)
+    elif isinstance(e, ast.JoinedStr):
+        for v in e.values:
+            yield from _eval_order(v)
+    elif isinstance(e, ast.FormattedValue):
+        yield from _eval_order(e.value)
+    else:
+        yield _Opaque()
+
+
+def _unroll_literal_loop(st: ast.stmt) -> List[ast.stmt]:
+    """for v in (a, b): body   with a literal tuple of plain names / constants, a plain loop variable that the body does
+    not re-bind, no break / continue / else: body[v:=a]; body[v:=b]"""
+    if not (isinstance(st, ast.For) and not st.orelse and isinstance(st.target, ast.Name) and isinstance(st.iter, (ast.Tuple, ast.List)) and all(isinstance(e, (ast.Name, ast.Constant)) for e in st.iter.elts)):
+        return [st]
+    v = st.target.id
+    for x in ast.walk(st):
+        if isinstance(x, (ast.Break, ast.Continue, ast.Return, ast.Yield, ast.YieldFrom, ast.Lambda, ast.FunctionDef)):
+            return [st]
+        if isinstance(x, ast.Name) and x.id == v and isinstance(x.ctx, (ast.Store, ast.Del)) and x is not st.target:
+            return [st]
+    out: List[ast.stmt] = []
+    for e in st.iter.elts:
+        for b in st.body:
+            nb = _Sub({v: e}).visit(clone_ast(b))
+            ast.fix_missing_locations(nb)
+            out.append(nb)
+    return out
 
 
 def _is_none(e) -> bool:
@@ -539,21 +653,36 @@ def _tail_helper_body(model: Model, fi: FuncInfo, body: List[ast.stmt], caller_n
     if not body or not isinstance(body[-1], ast.Return) or not isinstance(body[-1].value, ast.Call):
         return None
     call = body[-1].value
-    if call.keywords or not call.args or any(isinstance(a, ast.Starred) for a in call.args):
+    if call.keywords or any(isinstance(a, ast.Starred) for a in call.args):
         return None
     got = _resolve_helper(model, fi, call)
     if got is None:
         return None
     h, skip = got
+    if not call.args and not skip:
+        return None
     if h is fi or h.name in _KEEP or isinstance(h.node, ast.Lambda) or not h.is_private or any(ast.unparse(d) != "staticmethod" for d in h.node.decorator_list):
         return None
     n_sites = len(call_sites_of(model, h))
+    if n_sites == 0 and h.cls is not None and h.cls is not fi.cls:
+        # a method of a private record class: its call sites are the `x.name(..)` calls of the package
+        n_sites = sum(1 for g_ in model.funcs.values() for c_ in ast.walk(g_.node) if isinstance(c_, ast.Call) and isinstance(c_.func, ast.Attribute) and c_.func.attr == h.name and g_.parent_func is None)
     small = sum(1 for x in ast.walk(h.node) if isinstance(x, ast.stmt)) <= 8 and not any(c_ is h for c_, _cl, _sk in call_sites_of(model, h))
-    if (n_sites != 1 and not small) or len(h.pos_params) - skip != len(call.args):
+    if (n_sites != 1 and not small) or (len(h.pos_params) - skip != len(call.args) and not h.node.args.vararg):
         return None
     a = h.node.args
-    if a.vararg or a.kwarg or a.kwonlyargs or a.defaults or a.posonlyargs:
+    if a.kwarg or a.kwonlyargs or a.defaults or a.posonlyargs:
         return None
+    vararg_elts: Optional[List[ast.expr]] = None
+    if a.vararg:
+        # *nodes: bound to the tuple of the remaining arguments (plain names / constants only)
+        n_fixed = len(h.pos_params) - skip
+        extra = call.args[n_fixed:]
+        if len(call.args) < n_fixed or not all(isinstance(e_, (ast.Name, ast.Constant)) for e_ in extra):
+            return None
+        vararg_elts = list(extra)
+        call = copy.copy(call)
+        call.args = list(call.args[:n_fixed])
     if any(isinstance(x, (ast.AsyncFunctionDef, ast.ClassDef, ast.Global, ast.Nonlocal, ast.Yield, ast.YieldFrom)) for st in h.node.body for x in ast.walk(st)):
         return None
     nested = [x for st in h.node.body for x in ast.walk(st) if isinstance(x, (ast.FunctionDef, ast.Lambda))]
@@ -572,12 +701,13 @@ def _tail_helper_body(model: Model, fi: FuncInfo, body: List[ast.stmt], caller_n
             return None
         ren[h.pos_params[0]] = call.func.value.id
     pre: List[ast.stmt] = []
-    const_args: Dict[str, ast.Constant] = {}
+    const_args: Dict[str, ast.expr] = {}
+    caller_names_stores = {x.id for x in ast.walk(fi.node) if isinstance(x, ast.Name) and isinstance(x.ctx, (ast.Store, ast.Del))} | set(fi.params)
     for p_, a_ in zip(h.pos_params[skip:], call.args):
         if isinstance(a_, ast.Name):
             ren[p_] = a_.id
-        elif isinstance(a_, ast.Constant):
-            const_args[p_] = a_  # a constant argument is that constant wherever the parameter is read
+        elif isinstance(a_, ast.Constant) or (isinstance(a_, ast.Attribute) and isinstance(a_.value, ast.Name) and a_.value.id in fi.module.imports and a_.value.id not in caller_names_stores):
+            const_args[p_] = a_  # a constant argument (or a name of an imported module: ast.Call) is that wherever the parameter is read
         else:
             # an argument expression is evaluated once, before the helper's body: a temporary named after the parameter
             tmp = f"{p_}_arg"
@@ -639,26 +769,41 @@ def _tail_helper_body(model: Model, fi: FuncInfo, body: List[ast.stmt], caller_n
             imp._fresh = True  # type: ignore
             pre.insert(0, imp)
 
+    if vararg_elts is not None and a.vararg.arg in stores:
+        return None
+
     class _R(ast.NodeTransformer):
         def visit_Name(self, n: ast.Name):
+            if vararg_elts is not None and n.id == a.vararg.arg and isinstance(n.ctx, ast.Load):
+                return ast.copy_location(ast.Tuple(elts=[clone_ast(e_) for e_ in vararg_elts], ctx=ast.Load()), n)
             if n.id in const_args and isinstance(n.ctx, ast.Load):
-                return ast.copy_location(ast.Constant(value=const_args[n.id].value), n)
+                return ast.copy_location(clone_ast(const_args[n.id]), n)
             if n.id in ren:
                 return ast.copy_location(ast.Name(id=ren[n.id], ctx=n.ctx), n)
             return n
 
     hb = [st for st in h.node.body if not (isinstance(st, ast.Expr) and isinstance(st.value, ast.Constant) and isinstance(st.value.value, str))]
+    if vararg_elts is not None:
+        hb2: List[ast.stmt] = []
+        for st in hb:
+            c_ = _R().visit(clone_ast(st))
+            ast.fix_missing_locations(c_)
+            hb2.extend(_unroll_literal_loop(c_))
+        ren_done = True
+    else:
+        hb2 = hb
+        ren_done = False
     if multi_ret:
-        conv = _assign_conv([_R().visit(clone_ast(st)) for st in hb], assign_to, body[-1])
+        conv = _assign_conv([(st if ren_done else _R().visit(clone_ast(st))) for st in hb2], assign_to, body[-1])
         if conv is None:
             return None
         for c_ in conv:
             c_._fresh = True  # type: ignore
         return list(pre) + conv
     out = list(pre)
-    for st in hb:
-        c_ = _R().visit(clone_ast(st))
-        if assign_to is not None and st is hb[-1]:
+    for st in hb2:
+        c_ = st if ren_done else _R().visit(clone_ast(st))
+        if assign_to is not None and st is hb2[-1]:
             c_ = ast.copy_location(ast.Assign(targets=[clone_ast(assign_to)], value=c_.value, type_comment=None), body[-1])
         c_._fresh = True  # type: ignore
         out.append(c_)
